@@ -3,6 +3,8 @@
    nat, positive, N, Z stay Coq datatypes. *)
 Require Extraction.
 From Coq Require Import ExtrOcamlBasic.
+From Coq Require Import ZArith.
 From KV Require Import Model.Sasl.
 Extraction Language OCaml.
-Extraction "c18_model.ml" run_case handed_out trace.
+(* Z.to_N only so that the N datatype, which ocaml/kvio.ml.in mentions, is part of the module *)
+Extraction "c18_model.ml" run_case handed_out trace Z.to_N.
